@@ -44,6 +44,8 @@ import BGV
 #print axioms BGV.C04_dir_edgeNumber
 #print axioms BGV.C04_dir_total
 #print axioms BGV.C04_dir_outDegree
+#print axioms BGV.C04_dir_inDegree
+#print axioms BGV.C04_dir_degree_vectors
 #print axioms BGV.C04_dir_adjacencyMatrix
 #print axioms BGV.C04_und_degree
 #print axioms BGV.C04_und_adjacencyMatrix
@@ -212,6 +214,8 @@ import BGV
 #print axioms BGV.C16_removeDuplicateEdges
 #print axioms BGV.C16_dedup_restores_inv
 #print axioms BGV.C16_multi_removeDuplicateEdges
+#print axioms BGV.C16_umulti_removeDuplicateEdges
+#print axioms BGV.C16_uweighted_removeDuplicateEdges
 #print axioms BGV.C16_und_removeDuplicateEdges
 #print axioms BGV.C16_und_forced_add
 #print axioms BGV.C16_weighted_removeDuplicateEdges
